@@ -22,7 +22,10 @@ META = {
              "a slice and from a reader. For B = JSON the reader half of the premise is proved on the models of serde_json's writer "
              "and reader (what was written is read back to the same events; floats included, on the model of serde_json's "
              "serialize_f64 / ryu in JsonFloatModel.v, for every finite binary64: C06_json_output_is_a_fixed_point_with_floats, "
-             "C06_msgpack_json_msgpack_with_floats, no premise), and the "
+             "C06_msgpack_json_msgpack_with_floats, no premise); idempotence of JSON -> JSON is proved for EVERY input text, not only "
+             "for the writer's own output (C06_json_to_json_idempotent_for_every_input, C06_json_to_json_keeps_the_events: whatever the "
+             "reader model reads is the event list of values the writer model can write, so the output is a fixed point and reads back "
+             "to the same events); and the "
              "round-trip clause is proved for the pair MessagePack/JSON: MessagePack->JSON->MessagePack reproduces what "
              "MessagePack->MessagePack writes, for every stream of values JSON can carry, and in the other direction, with no "
              "premise at all, JSON->MessagePack->JSON reproduces what JSON->JSON writes (C06_json_msgpack_json; the "
